@@ -148,6 +148,8 @@ def run_history(real, rng, n_ops, t):
                     continue
                 pkg = rng.choice(cands)
                 tags = set(rng.sample(tagpool, rng.randint(0, 3)))
+                if rev and m.rdb and rng.random() < 0.5:
+                    tags = {rng.choice(sorted(m.rdb))}      # exactly one of the names the view already knows
                 ops.append([i, "insert", pkg, sorted(tags)])
                 d.insert(pkg, set(tags))
                 m.insert(pkg, tags)
@@ -355,7 +357,7 @@ def run(ctx):
         if node is not None:
             ctx.function_under_contract(MOD + ":" + q, mod.segment(node))
     rng = random.Random(ctx.seed)
-    rounds = 3000 if ctx.tier == "quick" else 40000
+    rounds = 12000 if ctx.tier == "quick" else 100000
     t = Tally(ctx, "B-20 histories of read / insert / derivations on all live collections vs a sharing-aware reference model",
               "seeded histories of 2-7 operations over packages {p,q,r,pk,Pk,p:x} (distinct names; multi-letter, equal up to case, with a colon) and tags "
               "{t,u,f::x,f::y}; after every step every live collection (derived ones included) is compared with the model, and "
